@@ -122,7 +122,7 @@ def run_expand(ctx, name, factory, modes, kw, rep):
 def check_connect_all(ctx, rng, i):
     """circuit of mode-expanded probes wired by base name over the intersection of their mode sets"""
     L = impl.lk()
-    circ = gen.random_circuit(rng, ncomp_max=4, ports_max=3, p_link=0.8, p_expose=1.0)
+    circ = gen.random_circuit(rng, ncomp_max=4, ports_max=3, p_link=0.8, p_expose=1.0, shared_names=False)
     n = len(circ["comps"])
     allm = rng.sample(MODES, rng.randint(1, 3))
     msets = []
